@@ -1,12 +1,15 @@
 #!/bin/sh
 # Confirm each externally written mutant independently (tests still pass with the change; its demo passes
 # without and fails with the change) and, if confirmed, keep it under /verif/seeded/M-<prop>-<v>/.
+# MUT_PREFIX (default /tmp/mut_) and MUT_VARIANTS (default "A B") select the round.
 HEAD=$(git -C /repo rev-parse HEAD)
+PREFIX=${MUT_PREFIX:-/tmp/mut_}
+VARIANTS=${MUT_VARIANTS:-A B}
 for P in "$@"; do
-  W=/tmp/mut_$P
+  W=$PREFIX$P
   [ -d "$W" ] || continue
   git -C $W checkout -q -- . ; git -C $W checkout -q --detach $HEAD
-  for V in A B; do
+  for V in $VARIANTS; do
     D=$W/out/$V
     [ -f $D/patch.diff ] || continue
     DEMO=$(ls $D/demo.py $D/test_demo.py 2>/dev/null | head -1)
